@@ -25,6 +25,7 @@ pub struct EMsg(pub u32);
 impl Message for EMsg {}
 
 pub struct Dummy;
+#[cfg_attr(feature = "asynctrait", ractor::async_trait)]
 impl Actor for Dummy {
     type Msg = EMsg;
     type State = ();
@@ -454,6 +455,7 @@ impl EA {
         Ok(())
     }
 }
+#[cfg_attr(feature = "asynctrait", ractor::async_trait)]
 impl Actor for EA {
     type Msg = EMsg;
     type State = ();
@@ -479,6 +481,7 @@ impl Actor for EA {
 struct ES {
     w: TW,
 }
+#[cfg_attr(feature = "asynctrait", ractor::async_trait)]
 impl Actor for ES {
     type Msg = EMsg;
     type State = ();
